@@ -178,7 +178,10 @@ pub fn build(case: &Case, ctx: &mut CaseCtx) -> Built {
             let t0 = d.time;
             for &s in &order {
                 let (owner, spender) = if by_owner { (&pivot, &cands[s]) } else { (&cands[s], &pivot) };
+                // some grants are short-lived: they lapse before the listing is read (and stay listed, lapsed)
+                let short_lived = s % 10 == 6;
                 let expires = match (s + case.variant as usize) % 4 {
+                    _ if short_lived => Some(if s % 20 == 6 { Expiration::AtHeight(d.height + 50) } else { Expiration::AtTime(cosmwasm_std::Timestamp::from_seconds(d.time + 250)) }),
                     0 => None,
                     1 => Some(Expiration::Never {}),
                     2 => Some(Expiration::AtHeight(h0 + 100_000 + s as u64)),
@@ -242,6 +245,19 @@ pub fn build(case: &Case, ctx: &mut CaseCtx) -> Built {
                         ctx.count("cw20_mirrored_allowance_used_up");
                     }
                     required.insert(Key::Addr(cands[s].to_string()));
+                }
+            }
+            // the short-lived grants lapse; their owners still trim some of them afterwards (a lapsed grant is
+            // an entry like any other: it stays in both listings with what is left of it)
+            d.advance(80, 400);
+            for (s, r) in plan.iter().enumerate() {
+                if r.is_none() && s % 10 == 6 && s % 9 != 4 {
+                    let (owner, spender) = if by_owner { (&pivot, &cands[s]) } else { (&cands[s], &pivot) };
+                    must(
+                        exec(&mut d, owner, Cw20ExecuteMsg::DecreaseAllowance { spender: spender.to_string(), amount: Uint128::new(1), expires: None }),
+                        "partial decrease of a lapsed grant",
+                    );
+                    ctx.count("cw20_lapsed_grant_trimmed");
                 }
             }
         }
